@@ -70,7 +70,7 @@ OPS = [
      "var se = 'none'; try { (1, eval)('LAB1: { LAB2: while (true) { b = ; } }') } catch (e) { se = e.name } se", "value", {}),
     ("use the labels LAB1 and LAB2", None, "LAB1: { LAB2: for (var i9 = 0; i9 < 1; i9++) { c = 31; break LAB1 } }", "value", {"c": 31}),
     ("change the results of Object.keys / values / entries of primitives", None,
-     "[Object.keys(5), Object.values(true), Object.entries('s'), Object.keys()].forEach(function (x) { try { x.push('leak'); x.zz = 1 } catch (e) { } }); 0",
+     "[Object.keys(5), Object.values(true), Object.entries('s'), Object.keys()].forEach(function (x) { try { x.push('leak'); x.pkz = 1 } catch (e) { } }); 0",
      "value", {}),
     ("set a=11", None, ("set", "a", 11), "value", {"a": 11}),
     ("a=12, loop forever inside try", "time", "a = 12; try { while (true) { } } catch (e) { a = -1 } finally { a = -2 }", "time", {"a": 12}),
@@ -89,7 +89,7 @@ EVAL_PROBES = [("f", "typeof f === 'function' ? f() : 'nofn'"), ("zz", "var o = 
                ("uncaught", "throw 'probe'"), ("caught", "var pr; try { null.x } catch (e) { pr = 'c' } pr"),
                ("json", "JSON.stringify({q: [1, {}]}) + (typeof cy === 'object' && cy.k.self === 1 ? JSON.stringify(cy.k) : '')"),
                ("join", "[1, [2, 3]].join() + [[]].join().length"),
-               ("primitive-keys", "[Object.keys(7).length, Object.values(false).length, Object.entries(3).length, typeof Object.keys(9).zz, "
+               ("primitive-keys", "[Object.keys(7).length, Object.values(false).length, Object.entries(3).length, typeof Object.keys(9).pkz, "
                                   "(function () { try { return Object.keys().length } catch (e) { return e.name } })()].join()")]
 
 
